@@ -328,7 +328,11 @@ def closure(tier):
 
 
 def extra_cases(tier):
-    return [], closure(tier)
+    cov = closure(tier)
+    # the explored state graph of this check is the closure over rule-instance state dumps
+    cov["states"] = max(1, cov["closure"]["states"])
+    cov["transitions_in_state_closure"] = cov["closure"]["transitions"]
+    return [], cov
 
 
 def classify(key, sig, detail):
